@@ -952,6 +952,32 @@ func systematic() []Spec {
 			s2.Faces = append(s2.Faces, [][]uint64{q})
 		}
 		out = append(out, s2)
+		// S2b the same degenerate quads with per-corner texture coordinates
+		s2b := sysSpec(f, xyz, r, 4)
+		s2b.HasFace = true
+		s2b.FProps = []FProp{{Ct: "uchar", Lt: "float", Name: "texcoord", CtAlias: "uchar", LtAlias: "float"},
+			{Ct: "int", Lt: "uint", Name: "vertex_index", CtAlias: "int", LtAlias: "uint"}}
+		for qi, q := range [][]uint64{{0, 1, 2, 2}, {0, 1, 2, 0}, {3, 3, 3, 3}, {0, 1, 1, 3}, {2, 1, 0}, {0, 1, 2, 3}} {
+			var uv []uint64
+			for k := 0; k < 2*len(q); k++ {
+				uv = append(uv, uint64(math.Float32bits(float32(qi*8+k)/64)))
+			}
+			s2b.Faces = append(s2b.Faces, [][]uint64{uv, q})
+		}
+		out = append(out, s2b)
+		// S5 float triples whose first and last member are 8 bytes apart with the middle member elsewhere
+		for gi, g := range [][]string{{"x", "y", "z"}, {"px", "py", "pz"}, {"nx", "ny", "nz"}, {"f_dc_0", "f_dc_1", "f_dc_2"}, {"scale_0", "scale_1", "scale_2"}} {
+			four := []VProp{vp("float", "confidence")}
+			if gi%2 == 1 {
+				four = []VProp{vp("int", "label")}
+			}
+			if gi == 2 && f != "ascii" {
+				four = []VProp{vp("uchar", "c0"), vp("uchar", "c1"), vp("uchar", "c2"), vp("uchar", "c3")}
+			}
+			a := append(append([]VProp{vp("float", g[0])}, four...), vp("float", g[2]), vp("float", g[1]))
+			b := append(append([]VProp{vp("float", g[1]), vp("float", g[0])}, four...), vp("float", g[2]), vp("double", "time"))
+			out = append(out, sysSpec(f, a, r, 2), sysSpec(f, b, r, 2))
+		}
 		// S3
 		lone := append(append([]VProp(nil), xyz...), vp("float", "t"), vp("float", "alpha"), vp("float", "nx"), vp("int", "b"),
 			vp("double", "rot_2"), vp("float", "scale_1"), vp("float", "pz"), vp("int", "f_dc_1"))
